@@ -129,7 +129,7 @@ package keeper
 //@   let X = bal(pa, input.Coin.Denom)
 //@   let Y = bal(pa, output.Coin.Denom)
 //@   modifies bal
-//@   ensures bound:   err == nil ==> sold <= input.Coin.Amount
+//@   ensures bound:   err == nil ==> sold <= input.Coin.Amount && sold >= 1
 //@   ensures cp:      err == nil ==> (X*DEC_ONE + FEEF*sold) * (Y - output.Coin.Amount) >= X*Y*DEC_ONE
 //@   ensures almost_minimal: err == nil && sold >= 2 ==> (X*DEC_ONE + FEEF*(sold-2)) * (Y - output.Coin.Amount) < X*Y*DEC_ONE
 //@   ensures ledger:  err == nil ==> bal == leg(old(bal), sender, rcpt, pa, input.Coin.Denom, sold, output.Coin.Denom, output.Coin.Amount)
@@ -184,7 +184,7 @@ package keeper
 //@   let X2 = bal(pa2, std)
 //@   let Y2 = bal(pa2, output.Coin.Denom)
 //@   modifies bal
-//@   ensures bound:  err == nil ==> sold <= input.Coin.Amount
+//@   ensures bound:  err == nil ==> sold <= input.Coin.Amount && sold >= 1
 //@   ensures ledger: err == nil && sender != pa1 && sender != pa2 && pa1 != pa2 && rcpt != pa1 && rcpt != pa2 ==>
 //@           bal == leg(leg(old(bal), sender, sender, pa1, input.Coin.Denom, sold, std, Y1 - bal(pa1, std)),
 //@                      sender, rcpt, pa2, std, Y1 - bal(pa1, std), output.Coin.Denom, output.Coin.Amount)
